@@ -334,9 +334,10 @@ def _fold_aliases(func: ast.AST, props: Set[str]) -> int:
     is the chain.  Makes `get_label = self.classdb.get_label` before a loop invisible."""
     import copy
 
+    cparent: Dict[int, ast.AST] = {}
     for n in ast.walk(func):
         for ch_ in ast.iter_child_nodes(n):
-            ch_._cparent = n  # type: ignore[attr-defined]
+            cparent[id(ch_)] = n
     stores: Dict[str, int] = {}
     attr_stores: Set[str] = set()
     a = func.args
@@ -372,7 +373,7 @@ def _fold_aliases(func: ast.AST, props: Set[str]) -> int:
                     i += 1
                     continue
                 uses = [n for n in ast.walk(func) if isinstance(n, ast.Name) and n.id == name and isinstance(n.ctx, ast.Load)]
-                if not all(isinstance(getattr(u, "_cparent", None), ast.Call) and getattr(u, "_cparent").func is u for u in uses):
+                if not all(isinstance(cparent.get(id(u)), ast.Call) and cparent[id(u)].func is u for u in uses):
                     i += 1
                     continue
                 # every use must come after the binding in source order (a loop could otherwise read it before)
@@ -390,10 +391,153 @@ def _fold_aliases(func: ast.AST, props: Set[str]) -> int:
     return folded
 
 
+INIT_ONLY_ATTRS: Dict[str, Set[str]] = {}      # class name -> attributes bound in __init__ and nowhere else in the package
+MUTATORS = {"append", "appendleft", "extend", "insert", "pop", "popleft", "remove", "clear", "sort", "reverse", "add", "discard", "update", "setdefault", "popitem"}
+
+
+def init_only_attrs(trees: List[ast.AST]) -> Dict[str, Set[str]]:
+    """Per class: attributes of self that are assigned in __init__ and never re-bound by any
+    other function of the package (under any receiver name): an alias of such an attribute
+    denotes the same object for the whole life of the instance."""
+    bound_elsewhere: Set[str] = set()
+    in_init: Dict[str, Set[str]] = {}
+    for t in trees:
+        for c in ast.walk(t):
+            if isinstance(c, ast.ClassDef):
+                for m in c.body:
+                    if isinstance(m, (ast.FunctionDef, ast.AsyncFunctionDef)):
+                        for n in ast.walk(m):
+                            if isinstance(n, ast.Attribute) and isinstance(n.ctx, (ast.Store, ast.Del)):
+                                if m.name == "__init__" and isinstance(n.value, ast.Name) and n.value.id == "self":
+                                    in_init.setdefault(c.name, set()).add(n.attr)
+                                else:
+                                    bound_elsewhere.add(n.attr)
+        for n in ast.walk(t):
+            if isinstance(n, ast.Call) and isinstance(n.func, ast.Name) and n.func.id in ("setattr", "delattr"):
+                bound_elsewhere.add("*")
+    if "*" in bound_elsewhere:
+        return {}
+    return {c: {a for a in attrs if a not in bound_elsewhere} for c, attrs in in_init.items()}
+
+
+def _pure_value(e: ast.AST, cls_attrs: Set[str], props: Set[str]) -> bool:
+    """Evaluating e has no effect and denotes the same thing wherever its free names do:
+    names, constants, arithmetic, tuple displays, slices / subscripts of names, and chains
+    `self.a(.b)*` whose first attribute is bound in __init__ only."""
+    if isinstance(e, (ast.Name, ast.Constant)):
+        return True
+    if isinstance(e, ast.Attribute):
+        ch = _chain(e)
+        if ch is None or ch[0] != "self" or len(ch) < 2:
+            return False
+        if "*" in props or any(x in props for x in ch[1:]):
+            return False
+        return ch[1] in cls_attrs and (len(ch) == 2 or ch[-1] in METHOD_NAMES)
+    if isinstance(e, ast.BinOp) and isinstance(e.op, (ast.Add, ast.Sub, ast.Mult, ast.FloorDiv)):
+        return _pure_value(e.left, cls_attrs, props) and _pure_value(e.right, cls_attrs, props)
+    if isinstance(e, ast.UnaryOp) and isinstance(e.op, (ast.USub, ast.UAdd)):
+        return _pure_value(e.operand, cls_attrs, props)
+    if isinstance(e, ast.Tuple):
+        return all(_pure_value(x, cls_attrs, props) for x in e.elts)
+    if isinstance(e, ast.Subscript):
+        if not isinstance(e.value, ast.Name):
+            return False
+        sl = e.slice
+        parts = [sl.lower, sl.upper, sl.step] if isinstance(sl, ast.Slice) else [sl]
+        return all(x is None or _pure_value(x, cls_attrs, props) for x in parts)
+    return False
+
+
+def _propagate_pure_locals(func: ast.AST, props: Set[str], cls_name: Optional[str]) -> int:
+    """`t = E` with E pure (see _pure_value), t bound once, and nothing E mentions re-bound or
+    mutated at or after that point: every later use of t is E.  (Micro-optimisations such as
+    `shifts_table = self._shifts`, `new_value = old_value + 1`, `tail = xs[1:]`.)"""
+    import copy
+
+    cls_attrs = INIT_ONLY_ATTRS.get(cls_name or "", set())
+    a = func.args
+    params = {x.arg for x in a.posonlyargs + a.args + a.kwonlyargs} | ({a.vararg.arg} if a.vararg else set()) | ({a.kwarg.arg} if a.kwarg else set())
+    folded = 0
+    for _round in range(4):
+        changed = False
+        store_pos: Dict[str, List[Tuple[int, int]]] = {}
+        mut_pos: Dict[str, List[Tuple[int, int]]] = {}
+        nested_names: Set[str] = set()
+        for n in ast.walk(func):
+            if isinstance(n, ast.Name) and isinstance(n.ctx, (ast.Store, ast.Del)):
+                store_pos.setdefault(n.id, []).append((n.lineno, n.col_offset))
+            elif isinstance(n, (ast.Global, ast.Nonlocal)):
+                for nm in n.names:
+                    store_pos.setdefault(nm, []).extend([(0, 0), (10 ** 9, 0)])
+            elif isinstance(n, ast.Call) and isinstance(n.func, ast.Attribute) and n.func.attr in MUTATORS and isinstance(n.func.value, ast.Name):
+                mut_pos.setdefault(n.func.value.id, []).append((n.lineno, n.col_offset))
+            elif isinstance(n, ast.Subscript) and isinstance(n.ctx, (ast.Store, ast.Del)) and isinstance(n.value, ast.Name):
+                mut_pos.setdefault(n.value.id, []).append((n.lineno, n.col_offset))
+            elif isinstance(n, ast.AugAssign) and isinstance(n.target, ast.Name):
+                store_pos.setdefault(n.target.id, []).append((n.lineno, n.col_offset))
+            if isinstance(n, (ast.FunctionDef, ast.AsyncFunctionDef, ast.Lambda)) and n is not func:
+                for x in ast.walk(n):
+                    if isinstance(x, ast.Name) and isinstance(x.ctx, (ast.Store, ast.Del)):
+                        nested_names.add(x.id)
+        loops = [n for n in ast.walk(func) if isinstance(n, (ast.For, ast.While))]
+        for holder in [func] + [n for n in _local_nodes(func)]:
+            for block in _blocks(holder):
+                i = 0
+                while i < len(block):
+                    st = block[i]
+                    name = value = None
+                    if isinstance(st, ast.Assign) and len(st.targets) == 1 and isinstance(st.targets[0], ast.Name):
+                        name, value = st.targets[0].id, st.value
+                    elif isinstance(st, ast.AnnAssign) and isinstance(st.target, ast.Name) and st.value is not None:
+                        name, value = st.target.id, st.value
+                    if name is None or name in params or name in nested_names or len(store_pos.get(name, [])) != 1 or isinstance(value, (ast.Name, ast.Constant)) \
+                            or not _pure_value(value, cls_attrs, props):
+                        i += 1
+                        continue
+                    here = (st.lineno, st.col_offset)
+                    free = {x.id for x in ast.walk(value) if isinstance(x, ast.Name)}
+                    # nothing the value mentions is re-bound at or after this statement, nor (for subscripts) mutated;
+                    # and the statement is not inside a loop in which a free name is bound (it would be stale per iteration)
+                    stale = False
+                    for fv in free:
+                        if fv == "self":
+                            continue
+                        if any(p >= here for p in store_pos.get(fv, [])):
+                            stale = True
+                        if any(isinstance(x, ast.Subscript) for x in ast.walk(value)) and any(p >= here for p in mut_pos.get(fv, [])):
+                            stale = True
+                        for lp in loops:
+                            inside = lp.lineno <= st.lineno <= getattr(lp, "end_lineno", lp.lineno)
+                            if inside and any(lp.lineno <= p[0] <= getattr(lp, "end_lineno", lp.lineno) for p in store_pos.get(fv, [])):
+                                stale = True
+                    uses = [n for n in ast.walk(func) if isinstance(n, ast.Name) and n.id == name and isinstance(n.ctx, ast.Load)]
+                    if stale or not uses or any((u.lineno, u.col_offset) < here for u in uses):
+                        i += 1
+                        continue
+                    # a use inside a loop that does not contain the binding reads the same value every time: fine
+                    for u in uses:
+                        _replace(func, u, copy.deepcopy(value))
+                    del block[i]
+                    if not block:
+                        block.append(ast.Pass())
+                    folded += 1
+                    changed = True
+        if not changed:
+            break
+    return folded
+
+
 def canonicalise(tree: ast.AST, props: Set[str]) -> int:
     total = 0
+    for c in ast.walk(tree):
+        if isinstance(c, ast.ClassDef):
+            for n in c.body:
+                if isinstance(n, (ast.FunctionDef, ast.AsyncFunctionDef)):
+                    n._canon_cls = c.name  # type: ignore[attr-defined]
     for n in ast.walk(tree):
         if isinstance(n, (ast.FunctionDef, ast.AsyncFunctionDef)):
+            cls_name = getattr(n, "_canon_cls", None)
             total += _fold_aliases(n, props)
+            total += _propagate_pure_locals(n, props, cls_name)
             total += _fold_function(n, props)
     return total
